@@ -262,14 +262,13 @@ theorem parts_then_tail {tail : List Step} {nPre : Nat} (ht : TailOk tail nPre) 
           · intro h
             simpa [List.append_assoc] using h4 h
 
-/-- `create`, `adopt`, then the rest: every fault point except "between `create` and `adopt`" (k = 1) -/
-theorem create_adopt_then {rest : List Step} {s : St} (hs : s.tmp = false ∧ s.owned = false) (k : Nat) (hk : k ≠ 1) :
-    (k = 0 ∧ cleanup (outSt (prefixRun k (.create :: .adopt :: rest) s)) = s) ∨
-    (∃ k', k = k' + 2 ∧ cleanup (outSt (prefixRun k (.create :: .adopt :: rest) s)) =
+/-- `create`, then the rest: at every fault point — the temporary file and the `FileWriter` come into being in one step -/
+theorem create_then {rest : List Step} {s : St} (hs : s.tmp = false ∧ s.owned = false) (k : Nat) :
+    (k = 0 ∧ cleanup (outSt (prefixRun k (.create :: rest) s)) = s) ∨
+    (∃ k', k = k' + 1 ∧ cleanup (outSt (prefixRun k (.create :: rest) s)) =
       cleanup (outSt (prefixRun k' rest { s with tmp := true, owned := true }))) := by
-  rcases k with _ | _ | k
+  rcases k with _ | k
   · left; simp [prefixRun, outSt, cleanup, hs.2]
-  · exact absurd rfl hk
   · right; exact ⟨k, rfl, by simp [prefixRun, exec]⟩
 
 /-! ## complete runs -/
@@ -352,11 +351,11 @@ theorem run_completePost (c : Cfg) (hf : c.metaFails = false) (hi : c.infoFails 
   cases hm : c.hasMeta <;> simp only [run, exec, Bool.false_eq_true, ↓reduceIte] <;> rw [hdrop]
 
 theorem completeProg_eq (c : Cfg) :
-    completeProg c = c.parts.map .probe ++ .sizes (c.parts.all Part.fine) :: .create :: .adopt ::
+    completeProg c = c.parts.map .probe ++ .sizes (c.parts.all Part.fine) :: .create ::
       (c.parts.map .part ++ .mkdirs c.mkdirsFails :: .rename c.renameFails :: completePost c) := rfl
 
 theorem putObjectProg_eq (c : Cfg) :
-    putObjectProg c = .create :: .adopt :: (c.frames.map .frame ++
+    putObjectProg c = .create :: (c.frames.map .frame ++
       ([.flush, .check c.checksumsEqual, .mkdirs c.mkdirsFails, .rename c.renameFails] ++
         (if c.hasMeta then [.saveMeta c.metaFails] else [.dropMeta c.metaFails]) ++ [.saveInfo c.infoFails])) := by
   simp [putObjectProg, List.append_assoc]
